@@ -38,6 +38,25 @@ fn first_diff(a: &str, b: &str) -> String {
     )
 }
 
+/// Fill the stack region the next call will use with bytes that are neither zero nor
+/// valid UTF-8, so that a formatter reading stack memory it never wrote shows up as
+/// garbage (or as a failed validity check) instead of happening to read zero pages.
+/// Under valgrind / Miri the region below the stack pointer is undefined again on return,
+/// so this hides nothing from them.
+#[inline(never)]
+fn poison_stack(byte: u8) -> u64 {
+    if cfg!(miri) {
+        // the interpreter tracks initialisation itself (and 48 KiB of writes per case is slow there)
+        return 0;
+    }
+    let mut region = [0u8; 48 * 1024];
+    for (i, b) in region.iter_mut().enumerate() {
+        *b = byte ^ ((i & 1) as u8) << 3;
+    }
+    std::hint::black_box(&mut region);
+    region[17] as u64 + region[40_000] as u64
+}
+
 fn precisions(n: usize, rng: &mut Rng, thorough: bool) -> Vec<usize> {
     if n <= 33 || (thorough && n <= 256) {
         (0..=2 * n + 2).collect()
@@ -74,10 +93,12 @@ where
         let full_l = reference(&arr, false);
         let full_u = reference(&arr, true);
         st.check_case("C14", "hex.full", feature, || format!("C14 hex.full [{feature}] N={n} pattern={pat}"), n > 0, || {
+            std::hint::black_box(poison_stack(0xF5));
             let l = format!("{:x}", arr);
             if l != full_l {
                 return Err(format!("LowerMismatch: {{:x}}: {}", first_diff(&l, &full_l)));
             }
+            std::hint::black_box(poison_stack(0xC0));
             let u = format!("{:X}", arr);
             if u != full_u {
                 return Err(format!("UpperMismatch: {{:X}}: {}", first_diff(&u, &full_u)));
@@ -93,10 +114,12 @@ where
         for p in ps {
             st.check_case("C14", "hex.precision", feature, || format!("C14 hex.precision [{feature}] N={n} pattern={pat} p={p}"), n > 0, || {
                 let cut = p.min(2 * n);
+                std::hint::black_box(poison_stack(if p % 2 == 0 { 0xFF } else { 0x80 }));
                 let l = format!("{:.p$x}", arr, p = p);
                 if l != full_l[..cut] {
                     return Err(format!("LowerMismatch: {{:.{p}x}}: {}", first_diff(&l, &full_l[..cut])));
                 }
+                std::hint::black_box(poison_stack(0xF5));
                 let u = format!("{:.p$X}", arr, p = p);
                 if u != full_u[..cut] {
                     return Err(format!("UpperMismatch: {{:.{p}X}}: {}", first_diff(&u, &full_u[..cut])));
